@@ -16,3 +16,18 @@ func lemmaQidsLen(s []Qid, n int) {
 	for i := 0; i < n; i++ {
 	}
 }
+
+func lemmaNamesSplit(s []string, i int) {
+	for j := len(s); j > i; j-- {
+	}
+}
+
+func lemmaQidsSplit(s []Qid, i int) {
+	for j := len(s); j > i; j-- {
+	}
+}
+
+func lemmaNamesMin(s []string, n int) {
+	for i := 0; i < n; i++ {
+	}
+}
